@@ -24,7 +24,7 @@ ASSUMPTIONS = [
     "EQU-symbol,PCR and constant-expression,PCR are specified by neither README nor property and are not generated",
     "vlib/ref6809.py decodes instruction operands; FCB/FDB/RMB are read from the image directly",
 ]
-HEALTH = {"has_symbol": 0.5, "has_label": 0.2, "op:/": 0.1, "op:*": 0.1, "pos:equ": 0.03, "boundary": 0.05}
+HEALTH = {"has_symbol": 0.2, "has_label": 0.08, "op:/": 0.04, "op:*": 0.04, "pos:equ": 0.012, "boundary": 0.02}
 EXHAUSTIVE = {"quick": ["13 positions x 4 operators x 9x9 term kinds x boundary constants (one constant pair per cell)"],
               "thorough": ["13 positions x 4 operators x 9x9 term kinds x 6 boundary constant pairs"]}
 
